@@ -14,13 +14,13 @@
 import ast
 from typing import List, Tuple, get_args
 
-from sympy import Symbol
+from sympy import Symbol, sympify
 from sympy.logic import ITE, And, Not, Or, Xor, false, true
 
 from ..boolquant import QuantumBooleanGate
 from ..types import Qbool, Qfixed, Qint, Qtype, TExp, TypeErrorException, const_to_qtype
 from . import Env, exceptions
-from .utils import safe_str
+from .utils import flatten, safe_str
 
 
 def decompose_to_symbols(vlist, base, res=[]) -> List[Symbol]:
@@ -383,20 +383,20 @@ def translate_expression(expr, env: Env) -> TExp:  # noqa: C901
 
             subs = {}
             for a, fa in zip(args, def_f[1]):
-                if isinstance(a[1], List):
-                    for i in range(len(a[1])):  # type: ignore
-                        index = ".".join(a[1][i].name.split(".")[1:])  # type: ignore
-                        if index == "":
-                            index = f"{i}"
+                # Bind the formal bits by position: the actual bits keep the names
+                # they have in the caller (t.0.1 for an element of a tuple)
+                a_bits = flatten(a[1]) if isinstance(a[1], List) else [a[1]]
+                if len(a_bits) != len(fa.bitvec):
+                    raise TypeErrorException(a[0], fa.ttype)
 
-                        subs[f"{fa.name}.{index}"] = a[1][i]  # type: ignore
+                for f_bit, a_bit in zip(fa.bitvec, a_bits):
+                    subs[Symbol(f_bit)] = sympify(a_bit)
 
-                else:
-                    subs[fa.name] = a[1]
-
+            # xreplace substitutes all the formals at once: a caller variable named
+            # like a renamed formal (g_x) must not be substituted again
             n_exps = []
             for s, e in def_f[3]:
-                n_exps.append((s, e.subs(subs, simultaneus=True)))
+                n_exps.append((s, e.xreplace(subs)))
 
             _ret = list(map(lambda se: se[1], n_exps))
 
